@@ -389,7 +389,7 @@ enum RunRes {
 
 /// reference: outcome table -> set of acceptable results (boundary coincidences may be
 /// attributed to either adjacent step)
-fn reference(parts: &[(Out, bool)], tick: u64, dur: u64) -> Vec<RunRes> {
+fn reference(parts: &[(Out, bool)], tick: u64, dur: u64, random_order: bool) -> Vec<RunRes> {
     // parts: (outcome, is_client), in registration order. crashed hosts are Absent.
     let clients: Vec<Out> = parts.iter().filter(|p| p.1 && p.0 != Out::Absent).map(|p| p.0).collect();
     if clients.is_empty() {
@@ -439,13 +439,22 @@ fn reference(parts: &[(Out, bool)], tick: u64, dur: u64) -> Vec<RunRes> {
                 if step_of(k) == s {
                     let o = parts[*i].0;
                     let kind = if o.panic_time().is_some() { 'p' } else { o.finish().unwrap().1 };
-                    if kind == 'p' {
-                        hit = Some(RunRes::Panic);
-                        break;
-                    }
-                    if kind == 'e' {
-                        hit = Some(RunRes::Err);
-                        break;
+                    let r = match kind {
+                        'p' => Some(RunRes::Panic),
+                        'e' => Some(RunRes::Err),
+                        _ => None,
+                    };
+                    if let Some(r) = r {
+                        if hit.is_none() {
+                            hit = Some(r.clone());
+                        }
+                        // with random host order any of the step's terminating events may be
+                        // the one the step reaches first
+                        if random_order && !out.contains(&r) {
+                            out.push(r);
+                        } else if !random_order {
+                            break;
+                        }
                     }
                 }
             }
@@ -520,7 +529,7 @@ pub fn c11_scenario(ch: &mut Chooser, thorough: bool) -> Exec {
     }
     let polls_h_at_crash = *polls[0].borrow();
     let parts: Vec<(Out, bool)> = vec![(h_eff, false), (if no_clients { Out::Absent } else { a }, true), (if no_clients { Out::Absent } else { b }, true)];
-    let want = reference(&parts, tick, dur);
+    let want = reference(&parts, tick, dur, random_order);
 
     let got: RunRes = {
         let r = vx_core::catch(|| {
@@ -560,7 +569,7 @@ pub fn c11_scenario(ch: &mut Chooser, thorough: bool) -> Exec {
     let want_adj: Vec<RunRes> = if no_clients || (a == Out::Absent) {
         if by_step {
             // step() with no clients: completion is reported by the first step (unless software fails in it)
-            let mut w = reference(&[(h_eff, false), (Out::Ok(0), true)], tick, dur);
+            let mut w = reference(&[(h_eff, false), (Out::Ok(0), true)], tick, dur, random_order);
             w.push(RunRes::Ok(tick));
             w
         } else {
